@@ -623,6 +623,21 @@ func generate(repo, out string) error {
 		return err
 	}
 
+	// 4g. the guard prefixes of the projection operations as terms of QF.GStep (gast.go)
+	if err := writeIfChanged(filepath.Join(out, "Guards.lean"), []byte(guardsLean(root, strs))); err != nil {
+		return err
+	}
+
+	// 4e. the row hash functions as terms of QF.HE (hast.go)
+	if err := writeIfChanged(filepath.Join(out, "Hash.lean"), []byte(hashLean(colPkgs, pkgFns))); err != nil {
+		return err
+	}
+
+	// 4f. the built-in aggregations as terms of QF.AE (aast.go)
+	if err := writeIfChanged(filepath.Join(out, "Aggregations.lean"), []byte(aggregationsLean(repo, colPkgs))); err != nil {
+		return err
+	}
+
 	// 5. Ryu tables
 	ryu := parseDir(filepath.Join(repo, "internal", "ryu"))
 	var rb bytes.Buffer
